@@ -97,3 +97,51 @@ Proof.
   - unfold xfr_top, make_query. rewrite (zone_serial_zeq z v0 Hz). cbn [Z.eqb bind tIXFR Pos.eqb negb andb].
     unfold pick. rewrite Hu, UDP. reflexivity.
 Qed.
+
+(* ---- a whole sequence of incremental refreshes ---- *)
+Inductive refresh_plan : version -> list (list (option Z * list wmsg)) -> version -> Prop :=
+| rp_nil : forall v, refresh_plan v [] v
+| rp_cons : forall v chain table recs ws rest vfin,
+    chain_ok v chain ->
+    find_row table (Some (v_serial v)) = Some ws ->
+    ixfr_response v chain recs -> chunking tIXFR recs ws ->
+    refresh_plan (last chain v) rest vfin ->
+    refresh_plan v (table :: rest) vfin.
+
+Definition refresh_ok (r : res (Z * option Z * option Z * Z * zone)) : Prop :=
+  exists s z', r = Ok (tIXFR, Some s, Some s, 0, z').
+
+Definition final_zone (z : zone) (rs : list (res (Z * option Z * option Z * Z * zone))) : zone :=
+  match last rs (Ok (0, None, None, 0, z)) with
+  | Ok (_, _, _, _, z') => z'
+  | _ => z
+  end.
+
+Lemma last_in : forall {A} (l : list A) d, l <> [] -> In (last l d) l.
+Proof.
+  induction l as [|x l IH]; intros d H; [congruence|].
+  destruct l as [|y l]; [left; reflexivity|]. right. apply IH. discriminate.
+Qed.
+
+Theorem refreshes_converge : forall v tables vfin, refresh_plan v tables vfin ->
+  forall z, zeq z (zone_of v) ->
+  length (refreshes z tables) = length tables
+  /\ Forall refresh_ok (refreshes z tables)
+  /\ zeq (final_zone z (refreshes z tables)) (zone_of vfin).
+Proof.
+  intros v tables vfin P. induction P as [v|v chain table recs ws rest vfin Hok Hrow Hresp Hch P IH]; intros z Hz.
+  - cbn. split; [reflexivity|]. split; [constructor|exact Hz].
+  - destruct (refresh_converges v chain z table recs ws Hok Hz Hrow Hresp Hch) as [z' [Hr [Hz' _]]].
+    cbn [refreshes]. rewrite Hr.
+    destruct (IH z' Hz') as (Hlen & Hall & Hfin).
+    split; [cbn [length]; rewrite Hlen; reflexivity|].
+    split; [constructor; [exists (v_serial v), z'; reflexivity|exact Hall]|].
+    unfold final_zone in *. destruct (refreshes z' rest) as [|r rs] eqn:E.
+    + cbn. cbn in Hfin. exact Hfin.
+    + change (last (Ok (tIXFR, Some (v_serial v), Some (v_serial v), 0, z') :: r :: rs) (Ok (0, None, None, 0, z)))
+        with (last (r :: rs) (Ok (0, None, None, 0, z))).
+      rewrite (last_default (r :: rs) _ (Ok (0, None, None, 0, z'))) by discriminate.
+      assert (Hin : In (last (r :: rs) (Ok (0, None, None, 0, z'))) (r :: rs)) by (apply last_in; discriminate).
+      rewrite Forall_forall in Hall. destruct (Hall _ Hin) as [s0 [zl El]].
+      rewrite El in *. exact Hfin.
+Qed.
